@@ -40,6 +40,7 @@ SPH = [  # n, r, center  (all far enough apart not to overlap)
     (1.7, 0.25, (0.3, -1.4, 7.0)),
     ([1.59, 1.4, 1.5], [0.1, 0.2, 0.35], (-0.9, -1.1, 5.5)),
     (1.59 + 0.02j, 0.4, (1.9, -0.8, 8.0)),
+    ([1.59, H.NMED], [0.2, 0.3], (-2.2, 0.3, 6.5)),   # shell = medium index
 ]
 TREES = ["[0,[1,2]]", "[[0],[1],[2]]", "[[0,1],[2,[3]]]", "[[[0]]]",
          "[0,1,[2,[3,[4]]]]", "[[5,4],[3,2],[1,0]]"]
@@ -56,7 +57,7 @@ LIN_SC = ["mie", "layered", "mie2"]
 
 LABELS = {2: ["red", "green"], 3: ["red", "green", "blue"]}
 WLS = {"red": 0.66, "green": 0.52, "blue": 0.447}
-NIDX = {"red": 1.58, "green": 1.60, "blue": 1.62}
+NIDX = {"red": 1.58 + 0.01j, "green": 1.60, "blue": 1.62 + 0.03j}
 RAD = {"red": 0.5, "green": 0.45, "blue": 0.55}
 ALPHA = {"red": 0.8, "green": 0.9, "blue": 1.1}
 PCH = {"red": (1, 0), "green": (0, 1), "blue": (0.6, 0.8)}
@@ -79,13 +80,14 @@ CH_AXES = {
 
 def cases(tier, seed):
     out = []
-    maxk = 3 if tier == "quick" else 6
+    maxk = 3 if tier == "quick" else len(SPH)
     for k in range(1, maxk + 1):
         for sub in itertools.combinations(range(len(SPH)), k):
             out.append({"id": "sup:" + "".join(map(str, sub)), "kind": "sup",
                         "members": list(sub)})
     if tier == "quick":
-        for sub in ([0, 1, 3, 5], [0, 1, 2, 3, 4], [0, 1, 2, 3, 4, 5]):
+        for sub in ([0, 1, 3, 5], [0, 1, 2, 3, 4], [0, 1, 2, 3, 4, 5],
+                    [1, 3, 5, 6], [0, 1, 2, 3, 4, 5, 6]):
             out.append({"id": "sup:" + "".join(map(str, sub)), "kind": "sup",
                         "members": list(sub)})
     # generic nested Scatterers trees: HoloPy cannot run calc_* on them at
